@@ -73,6 +73,9 @@ package ecs
 //@        && old(rowEnt(&s.tables[s.entities[entity.id].table])[s.tables[s.entities[entity.id].table].len-1]).id != entity.id
 //@        && old(s.entities[rowEnt(&s.tables[s.entities[entity.id].table])[s.tables[s.entities[entity.id].table].len-1].id].table) == old(s.entities[entity.id].table)
 //@        && old(s.entities[rowEnt(&s.tables[s.entities[entity.id].table])[s.tables[s.entities[entity.id].table].len-1].id].row) == old(s.tables[s.entities[entity.id].table].len) - 1
+//@        && old(s.entityPool.entities[rowEnt(&s.tables[s.entities[entity.id].table])[s.tables[s.entities[entity.id].table].len-1].id]) == old(rowEnt(&s.tables[s.entities[entity.id].table])[s.tables[s.entities[entity.id].table].len-1])
+//@        && old(epRank(&s.entityPool)[uint32(rowEnt(&s.tables[s.entities[entity.id].table])[s.tables[s.entities[entity.id].table].len-1].id)]) == 0
+//@        && s.entityPool.reserved <= old(rowEnt(&s.tables[s.entities[entity.id].table])[s.tables[s.entities[entity.id].table].len-1]).id
 //@   assert   HasObservers uniq: forall i uint32 :: __trigger(s.entities[i].row) && (s.entityPool.reserved <= entityID(i) && uint64(i) < uint64(len(s.entityPool.entities)) && old(epRank(&s.entityPool)[i]) == 0 && old(s.entities[i].table) == old(s.entities[entity.id].table) ==>
 //@        (old(s.entities[i].row) == old(s.entities[entity.id].row) ==> entityID(i) == entity.id)
 //@        && (old(s.entities[i].row) == old(s.tables[s.entities[entity.id].table].len) - 1 ==> entityID(i) == old(rowEnt(&s.tables[s.entities[entity.id].table])[s.tables[s.entities[entity.id].table].len-1]).id))
